@@ -192,9 +192,14 @@ def run(facts, res):
                 n5 += 1
                 k = arg_term(cb, t, 1, 30)
                 v = arg_term(cb, t, 2, 30)
-                kp = {x[1] for x in walk(k) if x[0] == "param"}
-                vp = {x[1] for x in walk(v) if x[0] == "param"}
-                ok = bool(kp & vp) and cb.kind == "closure"
+                if cb.kind == "closure":
+                    kp = {x[1] for x in walk(k) if x[0] == "param"}
+                    vp = {x[1] for x in walk(v) if x[0] == "param"}
+                else:
+                    # plain loop: both derive from the element of the same iteration
+                    kp = {x[3] for x in walk(k) if x[0] == "call" and callee_name(x) == "next"}
+                    vp = {x[3] for x in walk(v) if x[0] == "call" and callee_name(x) == "next"}
+                ok = bool(kp & vp)
                 res.instance("O5", "%s: key %s and bytes %s derive from the same element: %s" % (cb.path, fmt(k, 4), fmt(v, 4), ok), cb.loc(t.line))
                 if not ok:
                     res.violation("O5", "%s|write-mixes-items" % cb.path, "%s writes bytes that do not derive from the item named by the key" % cb.path, cb.loc(t.line))
